@@ -132,7 +132,7 @@ def install_ro_inspect():
         return [('C20.RunningOrder.inspect_prints_without_raising', z3.BoolVal(len(ex.st.out) > 0))]
 
     def raises(self, cx, ex):
-        return [('C20+C12.RunningOrder.inspect_never_raises[%s]' % ex.value.name(), z3.BoolVal(False))]
+        return [('C20+C12+C19.RunningOrder.inspect_never_raises[%s]' % ex.value.name(), z3.BoolVal(False))]
     T = type(c)
     T.entry, T.requires, T.loop, T.ensures, T.raises = entry, requires, loop, ensures, raises
     T.props = ('C20', 'C19')
